@@ -1,0 +1,22 @@
+//go:build verif
+
+package client
+
+import "sort"
+
+// VerifState is a read-only projection of the connection's per-exchange tables
+// (verification harness only).
+type VerifState struct {
+	Tokens   []uint64 // keys of the token -> response handler table
+	QueueLen int      // received-message queue length
+}
+
+func (cc *Conn) VerifState() VerifState {
+	var st VerifState
+	for k := range cc.tokenHandlerContainer.CopyData() {
+		st.Tokens = append(st.Tokens, k)
+	}
+	sort.Slice(st.Tokens, func(i, j int) bool { return st.Tokens[i] < st.Tokens[j] })
+	st.QueueLen = cc.receivedMessageReader.VerifQueueLen()
+	return st
+}
